@@ -1012,7 +1012,7 @@ class Pool:
                                        env=env, text=True) for _ in range(n)]
         self.used = False
 
-    def map(self, items, timeout=1200):
+    def map(self, items, timeout=3600):
         if self.used:
             raise common.MachineryError("Pool.map may be called once")
         self.used = True
